@@ -77,7 +77,7 @@ structure Inv (s : State) : Prop where
   fut_done : ∀ c o, s.fut c = .done o →
       s.outcome c = some o ∧ s.th c = .over ∧ (s.pc c = .resolved ∨ s.pc c = .returned)
   fut_pending : ∀ c, s.fut c = .pending → s.th c ≠ .idle → s.pc c = .awaiting
-  finished_outcome : ∀ c, s.th c = .finished → ∃ o, s.outcome c = some o
+  finished_outcome : ∀ c, s.th c = .finished → s.outcome c ≠ none
   got_outcome : ∀ c o, s.got c = some (.outcome o) → s.fut c = .done o
   got_cancelled : ∀ c, s.got c = some .cancelled → s.cancelReq c = true
   returned_iff : ∀ c, s.pc c = .returned ↔ s.got c ≠ none
@@ -91,14 +91,20 @@ structure Inv (s : State) : Prop where
   idle_nodup : s.idle.Nodup
   idle_free : ∀ w, w ∈ s.idle → s.busy w = none ∧ w ∉ s.lost
   lost_free : ∀ w, w ∈ s.lost → s.busy w = none
+  cancel_req : ∀ c, (s.pc c = .early ∨ s.pc c = .wcancel) → s.cancelReq c = true
+
+set_option hygiene false in
+/-- name the clauses of `hi : Inv s` as `h1 … h25` -/
+macro "inv_destruct" : tactic =>
+  `(tactic| obtain ⟨h1, h2, h3, h4, h5, h6, h7, h8, h9, h10, h11, h12, h13, h14, h15, h16, h17, h18,
+      h19, h20, h21, h22, h23, h24, h25⟩ := hi)
 
 theorem inv_init (n : Nat) : Inv (init n) := by
   constructor <;> simp [init, Occupies]
 
 theorem inv_setCancel {s : State} (hi : Inv s) (c : Nat) :
     Inv { s with cancelReq := upd s.cancelReq c true } := by
-  obtain ⟨h1, h2, h3, h4, h5, h6, h7, h8, h9, h10, h11, h12, h13, h14, h15, h16, h17, h18, h19,
-    h20, h21, h22, h23, h24⟩ := hi
+  inv_destruct
   constructor <;> simp only [Occupies] at * <;> first | assumption | grind
 
 theorem inv_interrupt {s : State} (hi : Inv s) (c : Nat) (hc : s.cancelReq c = true) :
@@ -106,12 +112,10 @@ theorem inv_interrupt {s : State} (hi : Inv s) (c : Nat) (hc : s.cancelReq c = t
   rcases interrupt_cases s c with h | ⟨hp, h⟩ | ⟨hp, ha, h⟩
   · rw [h]; exact hi
   · rw [h]
-    obtain ⟨h1, h2, h3, h4, h5, h6, h7, h8, h9, h10, h11, h12, h13, h14, h15, h16, h17, h18, h19,
-      h20, h21, h22, h23, h24⟩ := hi
+    inv_destruct
     constructor <;> simp only [Occupies] at * <;> first | assumption | grind [List.Nodup.mem_erase_iff, List.Nodup.erase]
   · rw [h]
-    obtain ⟨h1, h2, h3, h4, h5, h6, h7, h8, h9, h10, h11, h12, h13, h14, h15, h16, h17, h18, h19,
-      h20, h21, h22, h23, h24⟩ := hi
+    inv_destruct
     constructor <;> simp only [Occupies] at * <;> first | assumption | grind
 
 macro "inv_close" : tactic =>
@@ -120,16 +124,14 @@ macro "inv_close" : tactic =>
 
 theorem inv_step_call {s s' : State} {o : Out} (hi : Inv s) {c : Nat} {ab pre : Bool}
     (hs : step s (.call c ab pre) = some (s', o)) : Inv s' := by
-  obtain ⟨h1, h2, h3, h4, h5, h6, h7, h8, h9, h10, h11, h12, h13, h14, h15, h16, h17, h18, h19,
-    h20, h21, h22, h23, h24⟩ := hi
+  inv_destruct
   simp only [step] at hs
   split at hs; · contradiction
   split at hs <;> (cases hs; inv_close)
 
 theorem inv_step_tokenGranted {s s' : State} {o : Out} (hi : Inv s) {c : Nat}
     (hs : step s (.tokenGranted c) = some (s', o)) : Inv s' := by
-  obtain ⟨h1, h2, h3, h4, h5, h6, h7, h8, h9, h10, h11, h12, h13, h14, h15, h16, h17, h18, h19,
-    h20, h21, h22, h23, h24⟩ := hi
+  inv_destruct
   simp only [step] at hs
   split at hs; · contradiction
   split at hs
@@ -138,8 +140,7 @@ theorem inv_step_tokenGranted {s s' : State} {o : Out} (hi : Inv s) {c : Nat}
 
 theorem inv_step_dispatch {s s' : State} {o : Out} (hi : Inv s) {c : Nat}
     (hs : step s (.dispatch c) = some (s', o)) : Inv s' := by
-  obtain ⟨h1, h2, h3, h4, h5, h6, h7, h8, h9, h10, h11, h12, h13, h14, h15, h16, h17, h18, h19,
-    h20, h21, h22, h23, h24⟩ := hi
+  inv_destruct
   simp only [step] at hs
   split at hs; · contradiction
   split at hs
@@ -157,8 +158,7 @@ theorem inv_step_dispatch {s s' : State} {o : Out} (hi : Inv s) {c : Nat}
 
 theorem inv_step_threadStart {s s' : State} {o : Out} (hi : Inv s) {c : Nat}
     (hs : step s (.threadStart c) = some (s', o)) : Inv s' := by
-  obtain ⟨h1, h2, h3, h4, h5, h6, h7, h8, h9, h10, h11, h12, h13, h14, h15, h16, h17, h18, h19,
-    h20, h21, h22, h23, h24⟩ := hi
+  inv_destruct
   simp only [step] at hs
   split at hs
   · cases hs; inv_close
@@ -166,17 +166,22 @@ theorem inv_step_threadStart {s s' : State} {o : Out} (hi : Inv s) {c : Nat}
 
 theorem inv_step_threadSkip {s s' : State} {o : Out} (hi : Inv s) {c : Nat}
     (hs : step s (.threadSkip c) = some (s', o)) : Inv s' := by
-  obtain ⟨h1, h2, h3, h4, h5, h6, h7, h8, h9, h10, h11, h12, h13, h14, h15, h16, h17, h18, h19,
-    h20, h21, h22, h23, h24⟩ := hi
+  inv_destruct
   simp only [step] at hs
   split at hs
-  · cases hs; inv_close
+  · rename_i hq
+    have hb : s.busy (s.worker c) = some c := (h18 _ _).mpr ⟨Or.inl hq.1, rfl⟩
+    have hlt := h20 _ _ hb
+    have huniq : ∀ d, Occupies s d → s.worker d = s.worker c → d = c := by
+      intro d hd hw
+      have := (h18 (s.worker c) d).mpr ⟨hd, hw⟩
+      rw [hb] at this; exact (Option.some.inj this).symm
+    cases hs; inv_close
   · contradiction
 
 theorem inv_step_threadFinish {s s' : State} {o : Out} (hi : Inv s) {c : Nat} {r : Outcome}
     (hs : step s (.threadFinish c r) = some (s', o)) : Inv s' := by
-  obtain ⟨h1, h2, h3, h4, h5, h6, h7, h8, h9, h10, h11, h12, h13, h14, h15, h16, h17, h18, h19,
-    h20, h21, h22, h23, h24⟩ := hi
+  inv_destruct
   simp only [step] at hs
   split at hs
   · cases hs; inv_close
@@ -184,17 +189,24 @@ theorem inv_step_threadFinish {s s' : State} {o : Out} (hi : Inv s) {c : Nat} {r
 
 theorem inv_step_report {s s' : State} {o : Out} (hi : Inv s) {c : Nat}
     (hs : step s (.report c) = some (s', o)) : Inv s' := by
-  obtain ⟨h1, h2, h3, h4, h5, h6, h7, h8, h9, h10, h11, h12, h13, h14, h15, h16, h17, h18, h19,
-    h20, h21, h22, h23, h24⟩ := hi
+  inv_destruct
   simp only [step] at hs
   split at hs; · contradiction
+  rename_i hq; simp only [ne_eq, Decidable.not_not] at hq
   split at hs; · contradiction
+  have hb : s.busy (s.worker c) = some c := (h18 _ _).mpr ⟨Or.inr (Or.inr hq), rfl⟩
+  have hlt := h20 _ _ hb
+  have huniq : ∀ d, Occupies s d → s.worker d = s.worker c → d = c := by
+    intro d hd hw
+    have := (h18 (s.worker c) d).mpr ⟨hd, hw⟩
+    rw [hb] at this; exact (Option.some.inj this).symm
+  have hni : s.worker c ∉ s.idle := by
+    intro hm; have := (h23 _ hm).1; rw [hb] at this; cases this
   split at hs <;> (cases hs; inv_close)
 
 theorem inv_step_resume {s s' : State} {o : Out} (hi : Inv s) {c : Nat}
     (hs : step s (.resume c) = some (s', o)) : Inv s' := by
-  obtain ⟨h1, h2, h3, h4, h5, h6, h7, h8, h9, h10, h11, h12, h13, h14, h15, h16, h17, h18, h19,
-    h20, h21, h22, h23, h24⟩ := hi
+  inv_destruct
   simp only [step] at hs
   split at hs
   · cases hs; inv_close
@@ -207,15 +219,13 @@ theorem inv_step_resume {s s' : State} {o : Out} (hi : Inv s) {c : Nat}
 
 theorem inv_step_setTotal {s s' : State} {o : Out} (hi : Inv s) {n : Nat}
     (hs : step s (.setTotal n) = some (s', o)) : Inv s' := by
-  obtain ⟨h1, h2, h3, h4, h5, h6, h7, h8, h9, h10, h11, h12, h13, h14, h15, h16, h17, h18, h19,
-    h20, h21, h22, h23, h24⟩ := hi
+  inv_destruct
   simp only [step] at hs
   cases hs; inv_close
 
 theorem inv_step_prune {s s' : State} {o : Out} (hi : Inv s)
     (hs : step s (.prune) = some (s', o)) : Inv s' := by
-  obtain ⟨h1, h2, h3, h4, h5, h6, h7, h8, h9, h10, h11, h12, h13, h14, h15, h16, h17, h18, h19,
-    h20, h21, h22, h23, h24⟩ := hi
+  inv_destruct
   simp only [step] at hs
   split at hs
   · contradiction
